@@ -640,6 +640,11 @@ func GenSession(prop string, seed uint64, thorough bool) *Scenario {
 					t := g.rng(20, sc.HorizonMs/2)
 					id := fmt.Sprintf("%s.co.%d", c.Name, len(sc.App))
 					sc.App = append(sc.App, AppOp{AtMs: openAt + t, Task: "coincide-" + c.Name, Op: "send", Sess: c.Name, ID: id, Size: 8})
+					if 2*c.LatencyMs+c.PollGapMs > 0 && g.p(0.6) {
+						// ... and a message sent while the client has no poll out stays buffered until that poll arrives:
+						// the poll's own flush takes it in the instant of the close
+						sc.App = append(sc.App, AppOp{AtMs: openAt + t + g.rng(0, 2*c.LatencyMs+c.PollGapMs-1), Task: "coincide-" + c.Name, Op: "send", Sess: c.Name, ID: id + "b", Size: 8})
+					}
 					sc.App = append(sc.App, AppOp{AtMs: openAt + t + 2*c.LatencyMs + c.PollGapMs, Task: "coincide2-" + c.Name, Op: "close", Sess: c.Name})
 				}
 			case 2: // a duplicated request in the very instant of the original
@@ -653,7 +658,7 @@ func GenSession(prop string, seed uint64, thorough bool) *Scenario {
 			case 3: // server shutdown in the instant of a handshake or of an upgrade
 				at := c.StartMs + g.pick(0, c.LatencyMs)
 				if c.Upgrade != "" && g.p(0.5) {
-					at = openAt + c.UpgradeAtMs + g.pick(0, c.LatencyMs, 2*c.LatencyMs)
+					at = openAt + c.UpgradeAtMs + g.pick(0, c.LatencyMs, 2*c.LatencyMs, 4*c.LatencyMs, 5*c.LatencyMs, 100+4*c.LatencyMs, 100+5*c.LatencyMs, 100+5*c.LatencyMs)
 				}
 				sc.App = append(sc.App, AppOp{AtMs: at, Task: "shutdown", Op: "server-close"})
 			default: // the client gives up (reset / abort) in the instant the application sends
